@@ -227,19 +227,43 @@ impl Adapter {
     }
 }
 
-fn render_chain(c: &[Adapter]) -> String {
+/// `iter_at = Some(i)`: `.into_iter()` is called right after adapter `i` (a map / filter_map)
+fn render_chain(c: &[Adapter], iter_at: Option<usize>) -> String {
     if c.is_empty() {
         "-".into()
     } else {
-        c.iter().map(|a| a.render()).collect::<Vec<_>>().join("/")
+        c.iter()
+            .enumerate()
+            .map(|(i, a)| if iter_at == Some(i) { format!("{}!", a.render()) } else { a.render() })
+            .collect::<Vec<_>>()
+            .join("/")
     }
 }
 
-fn parse_chain(s: &str) -> Option<Vec<Adapter>> {
+fn parse_chain(s: &str) -> Option<(Vec<Adapter>, Option<usize>)> {
     if s == "-" {
-        return Some(vec![]);
+        return Some((vec![], None));
     }
-    s.split('/').map(Adapter::parse).collect()
+    let mut iter_at = None;
+    let mut c = vec![];
+    for (i, t) in s.split('/').enumerate() {
+        let t = match t.strip_suffix('!') {
+            Some(t) => {
+                if iter_at.is_some() {
+                    return None;
+                }
+                iter_at = Some(i);
+                t
+            }
+            None => t,
+        };
+        let a = Adapter::parse(t)?;
+        if iter_at == Some(i) && !matches!(a, Adapter::Map(..) | Adapter::FilterMap(..)) {
+            return None;
+        }
+        c.push(a);
+    }
+    Some((c, iter_at))
 }
 
 fn chain_meaning(c: &[Adapter], items: &[It]) -> Vec<It> {
@@ -351,6 +375,8 @@ enum Src {
     /// iterator of `Result`; the flag says quads (needed when no item shows the kind)
     Iter(bool, Vec<Result<It, String>>),
     Doc(Script),
+    /// the harness's synthetic chunked source (flag: quads)
+    Chunk(bool, Script),
 }
 
 fn render_src(s: &Src) -> String {
@@ -373,12 +399,18 @@ fn render_src(s: &Src) -> String {
                 )
             }
         }
-        Src::Doc(sc) => {
+        Src::Doc(sc) | Src::Chunk(_, sc) => {
+            let tag = match s {
+                Src::Chunk(false, _) => "C",
+                Src::Chunk(true, _) => "D",
+                _ => "P",
+            };
             if sc.is_empty() {
-                "P:_".into()
+                format!("{}:_", tag)
             } else {
                 format!(
-                    "P:{}",
+                    "{}:{}",
+                    tag,
                     sc.iter()
                         .map(|(is, e)| match e {
                             None => format!("o:{}", render_items(is)),
@@ -405,9 +437,14 @@ fn parse_src(s: &str) -> Option<Src> {
             })
             .collect();
         Some(Src::Iter(q, v?))
-    } else if let Some(r) = s.strip_prefix("P:") {
+    } else if let Some((tag, r)) = ["P:", "C:", "D:"].iter().find_map(|t| s.strip_prefix(t).map(|r| (*t, r))) {
+        let mk = |sc: Script| match tag {
+            "C:" => Src::Chunk(false, sc),
+            "D:" => Src::Chunk(true, sc),
+            _ => Src::Doc(sc),
+        };
         if r == "_" {
-            return Some(Src::Doc(vec![]));
+            return Some(mk(vec![]));
         }
         let v: Option<Vec<_>> = r
             .split(';')
@@ -421,7 +458,7 @@ fn parse_src(s: &str) -> Option<Src> {
                 }
             })
             .collect();
-        Some(Src::Doc(v?))
+        Some(mk(v?))
     } else {
         None
     }
@@ -439,7 +476,7 @@ fn delivered(s: &Src) -> (Vec<It>, Option<String>) {
                 }
             }
         }
-        Src::Doc(sc) => {
+        Src::Doc(sc) | Src::Chunk(_, sc) => {
             for (is, e) in sc {
                 out.extend(is.iter().copied());
                 if let Some(e) = e {
@@ -592,6 +629,39 @@ impl Source for BoxQ {
     }
 }
 
+// ------------------------------------------------------------------ synthetic chunked source
+
+/// a `Source` that hands out its items in chunks: one `try_for_some_item` = one step = the step's
+/// items, then the step's error if it has one (like a parser failing in the middle of a statement)
+struct Chunked<T> {
+    steps: std::collections::VecDeque<(Vec<T>, Option<String>)>,
+}
+
+macro_rules! impl_chunked {
+    ($t:ty) => {
+        impl Source for Chunked<$t> {
+            type Item<'x> = $t;
+            type Error = SrcErr;
+            fn try_for_some_item<E, F>(&mut self, mut f: F) -> StreamResult<bool, SrcErr, E>
+            where
+                E: Error + Send + Sync + 'static,
+                F: FnMut($t) -> Result<(), E>,
+            {
+                let Some((items, err)) = self.steps.pop_front() else { return Ok(false) };
+                for i in items {
+                    f(i).map_err(SinkError)?;
+                }
+                match err {
+                    Some(e) => Err(SourceError(SrcErr(e))),
+                    None => Ok(true),
+                }
+            }
+        }
+    };
+}
+impl_chunked!(T3);
+impl_chunked!(Q4);
+
 // ------------------------------------------------------------------ the tap in front of the consumer
 
 type Log = Rc<RefCell<Vec<It>>>;
@@ -701,6 +771,16 @@ impl Write for FailAfter {
 struct Cx {
     cons: Cons,
     stepwise: bool,
+    /// whole chain length and position of the adapter followed by `.into_iter()`
+    total: usize,
+    iter_at: Option<usize>,
+}
+
+impl Cx {
+    /// is the first adapter of the remaining chain `rest_with_head` the one to call `.into_iter()` on?
+    fn iter_here(&self, remaining: usize) -> bool {
+        self.iter_at == Some(self.total - remaining)
+    }
 }
 
 fn sorted(mut v: Vec<It>) -> Vec<It> {
@@ -1015,110 +1095,104 @@ fn next_q<S: QuadSource + 'static>(s: S, rest: &[Adapter], cx: &Cx) -> Obs {
 
 fn start_t<S: TripleSource + 'static>(s: S, chain: &[Adapter], cx: &Cx) -> Obs {
     let Some((a, rest)) = chain.split_first() else { return consume_t(s, cx) };
+    let it = cx.iter_here(chain.len());
     match *a {
         Adapter::Filter(W::I, p) => next_t(s.filter_items(move |t| p.eval(val_t(t))), rest, cx),
         Adapter::Filter(W::T, p) => next_t(s.filter_triples(move |t| p.eval(val_t(t))), rest, cx),
-        Adapter::Map(W::I, Fun::Add(k) | Fun::ToTriple(k)) => next_t(s.map_items(move |t| t3(val_t(&t) + k)), rest, cx),
-        Adapter::Map(W::T, Fun::Add(k) | Fun::ToTriple(k)) => next_t(s.map_triples(move |t| t3(val_t(&t) + k)), rest, cx),
-        Adapter::Map(W::I, Fun::ToQuad(k, g)) => next_q(s.map_items(move |t| q4(val_t(&t) + k, g)), rest, cx),
-        Adapter::Map(W::T, Fun::ToQuad(k, g)) => next_q(s.map_triples(move |t| q4(val_t(&t) + k, g)), rest, cx),
-        Adapter::FilterMap(W::I, p, Fun::Add(k) | Fun::ToTriple(k)) => next_t(
-            s.filter_map_items(move |t| {
+        Adapter::Map(W::I, Fun::Add(k) | Fun::ToTriple(k)) => { let x = s.map_items(move |t| t3(val_t(&t) + k)); if it { next_t(x.into_iter(), rest, cx) } else { next_t(x, rest, cx) } }
+        Adapter::Map(W::T, Fun::Add(k) | Fun::ToTriple(k)) => { let x = s.map_triples(move |t| t3(val_t(&t) + k)); if it { next_t(x.into_iter(), rest, cx) } else { next_t(x, rest, cx) } }
+        Adapter::Map(W::I, Fun::ToQuad(k, g)) => { let x = s.map_items(move |t| q4(val_t(&t) + k, g)); if it { next_q(x.into_iter(), rest, cx) } else { next_q(x, rest, cx) } }
+        Adapter::Map(W::T, Fun::ToQuad(k, g)) => { let x = s.map_triples(move |t| q4(val_t(&t) + k, g)); if it { next_q(x.into_iter(), rest, cx) } else { next_q(x, rest, cx) } }
+        Adapter::FilterMap(W::I, p, Fun::Add(k) | Fun::ToTriple(k)) => {
+            let x = s.filter_map_items(move |t| {
                 let v = val_t(&t);
                 p.eval(v).then(|| t3(v + k))
-            }),
-            rest,
-            cx,
-        ),
-        Adapter::FilterMap(W::T, p, Fun::Add(k) | Fun::ToTriple(k)) => next_t(
-            s.filter_map_triples(move |t| {
+            });
+            if it { next_t(x.into_iter(), rest, cx) } else { next_t(x, rest, cx) }
+        }
+        Adapter::FilterMap(W::T, p, Fun::Add(k) | Fun::ToTriple(k)) => {
+            let x = s.filter_map_triples(move |t| {
                 let v = val_t(&t);
                 p.eval(v).then(|| t3(v + k))
-            }),
-            rest,
-            cx,
-        ),
-        Adapter::FilterMap(W::I, p, Fun::ToQuad(k, g)) => next_q(
-            s.filter_map_items(move |t| {
+            });
+            if it { next_t(x.into_iter(), rest, cx) } else { next_t(x, rest, cx) }
+        }
+        Adapter::FilterMap(W::I, p, Fun::ToQuad(k, g)) => {
+            let x = s.filter_map_items(move |t| {
                 let v = val_t(&t);
                 p.eval(v).then(|| q4(v + k, g))
-            }),
-            rest,
-            cx,
-        ),
-        Adapter::FilterMap(W::T, p, Fun::ToQuad(k, g)) => next_q(
-            s.filter_map_triples(move |t| {
+            });
+            if it { next_q(x.into_iter(), rest, cx) } else { next_q(x, rest, cx) }
+        }
+        Adapter::FilterMap(W::T, p, Fun::ToQuad(k, g)) => {
+            let x = s.filter_map_triples(move |t| {
                 let v = val_t(&t);
                 p.eval(v).then(|| q4(v + k, g))
-            }),
-            rest,
-            cx,
-        ),
+            });
+            if it { next_q(x.into_iter(), rest, cx) } else { next_q(x, rest, cx) }
+        }
         Adapter::ToQuads => next_q(s.to_quads(), rest, cx),
+        _ if it => Obs::bad("bad-chain"),
         _ => Obs::bad("bad-chain"),
     }
 }
 
 fn start_q<S: QuadSource + 'static>(s: S, chain: &[Adapter], cx: &Cx) -> Obs {
     let Some((a, rest)) = chain.split_first() else { return consume_q(s, cx) };
+    let it = cx.iter_here(chain.len());
     match *a {
         Adapter::Filter(W::I, p) => next_q(s.filter_items(move |q| p.eval(val_q(q))), rest, cx),
         Adapter::Filter(W::Q, p) => next_q(s.filter_quads(move |q| p.eval(val_q(q))), rest, cx),
-        Adapter::Map(W::I, Fun::Add(k)) => next_q(s.map_items(move |q| q4(val_q(&q) + k, g_q(&q))), rest, cx),
-        Adapter::Map(W::Q, Fun::Add(k)) => next_q(s.map_quads(move |q| q4(val_q(&q) + k, g_q(&q))), rest, cx),
-        Adapter::Map(W::I, Fun::ToQuad(k, g)) => next_q(s.map_items(move |q| q4(val_q(&q) + k, g)), rest, cx),
-        Adapter::Map(W::Q, Fun::ToQuad(k, g)) => next_q(s.map_quads(move |q| q4(val_q(&q) + k, g)), rest, cx),
-        Adapter::Map(W::I, Fun::ToTriple(k)) => next_t(s.map_items(move |q| t3(val_q(&q) + k)), rest, cx),
-        Adapter::Map(W::Q, Fun::ToTriple(k)) => next_t(s.map_quads(move |q| t3(val_q(&q) + k)), rest, cx),
-        Adapter::FilterMap(W::I, p, Fun::Add(k)) => next_q(
-            s.filter_map_items(move |q| {
+        Adapter::Map(W::I, Fun::Add(k)) => { let x = s.map_items(move |q| q4(val_q(&q) + k, g_q(&q))); if it { next_q(x.into_iter(), rest, cx) } else { next_q(x, rest, cx) } }
+        Adapter::Map(W::Q, Fun::Add(k)) => { let x = s.map_quads(move |q| q4(val_q(&q) + k, g_q(&q))); if it { next_q(x.into_iter(), rest, cx) } else { next_q(x, rest, cx) } }
+        Adapter::Map(W::I, Fun::ToQuad(k, g)) => { let x = s.map_items(move |q| q4(val_q(&q) + k, g)); if it { next_q(x.into_iter(), rest, cx) } else { next_q(x, rest, cx) } }
+        Adapter::Map(W::Q, Fun::ToQuad(k, g)) => { let x = s.map_quads(move |q| q4(val_q(&q) + k, g)); if it { next_q(x.into_iter(), rest, cx) } else { next_q(x, rest, cx) } }
+        Adapter::Map(W::I, Fun::ToTriple(k)) => { let x = s.map_items(move |q| t3(val_q(&q) + k)); if it { next_t(x.into_iter(), rest, cx) } else { next_t(x, rest, cx) } }
+        Adapter::Map(W::Q, Fun::ToTriple(k)) => { let x = s.map_quads(move |q| t3(val_q(&q) + k)); if it { next_t(x.into_iter(), rest, cx) } else { next_t(x, rest, cx) } }
+        Adapter::FilterMap(W::I, p, Fun::Add(k)) => {
+            let x = s.filter_map_items(move |q| {
                 let v = val_q(&q);
                 p.eval(v).then(|| q4(v + k, g_q(&q)))
-            }),
-            rest,
-            cx,
-        ),
-        Adapter::FilterMap(W::Q, p, Fun::Add(k)) => next_q(
-            s.filter_map_quads(move |q| {
+            });
+            if it { next_q(x.into_iter(), rest, cx) } else { next_q(x, rest, cx) }
+        }
+        Adapter::FilterMap(W::Q, p, Fun::Add(k)) => {
+            let x = s.filter_map_quads(move |q| {
                 let v = val_q(&q);
                 p.eval(v).then(|| q4(v + k, g_q(&q)))
-            }),
-            rest,
-            cx,
-        ),
-        Adapter::FilterMap(W::I, p, Fun::ToQuad(k, g)) => next_q(
-            s.filter_map_items(move |q| {
+            });
+            if it { next_q(x.into_iter(), rest, cx) } else { next_q(x, rest, cx) }
+        }
+        Adapter::FilterMap(W::I, p, Fun::ToQuad(k, g)) => {
+            let x = s.filter_map_items(move |q| {
                 let v = val_q(&q);
                 p.eval(v).then(|| q4(v + k, g))
-            }),
-            rest,
-            cx,
-        ),
-        Adapter::FilterMap(W::Q, p, Fun::ToQuad(k, g)) => next_q(
-            s.filter_map_quads(move |q| {
+            });
+            if it { next_q(x.into_iter(), rest, cx) } else { next_q(x, rest, cx) }
+        }
+        Adapter::FilterMap(W::Q, p, Fun::ToQuad(k, g)) => {
+            let x = s.filter_map_quads(move |q| {
                 let v = val_q(&q);
                 p.eval(v).then(|| q4(v + k, g))
-            }),
-            rest,
-            cx,
-        ),
-        Adapter::FilterMap(W::I, p, Fun::ToTriple(k)) => next_t(
-            s.filter_map_items(move |q| {
+            });
+            if it { next_q(x.into_iter(), rest, cx) } else { next_q(x, rest, cx) }
+        }
+        Adapter::FilterMap(W::I, p, Fun::ToTriple(k)) => {
+            let x = s.filter_map_items(move |q| {
                 let v = val_q(&q);
                 p.eval(v).then(|| t3(v + k))
-            }),
-            rest,
-            cx,
-        ),
-        Adapter::FilterMap(W::Q, p, Fun::ToTriple(k)) => next_t(
-            s.filter_map_quads(move |q| {
+            });
+            if it { next_t(x.into_iter(), rest, cx) } else { next_t(x, rest, cx) }
+        }
+        Adapter::FilterMap(W::Q, p, Fun::ToTriple(k)) => {
+            let x = s.filter_map_quads(move |q| {
                 let v = val_q(&q);
                 p.eval(v).then(|| t3(v + k))
-            }),
-            rest,
-            cx,
-        ),
+            });
+            if it { next_t(x.into_iter(), rest, cx) } else { next_t(x, rest, cx) }
+        }
         Adapter::ToTriples => next_t(s.to_triples(), rest, cx),
+        _ if it => Obs::bad("bad-chain"),
         _ => Obs::bad("bad-chain"),
     }
 }
@@ -1430,7 +1504,7 @@ pub fn exec(line: &str) -> String {
     if f.len() < 5 || f[0] != "x" {
         return "bad-op".into();
     }
-    let (Some(src), Some(chain), Some(cons)) = (parse_src(f[1]), parse_chain(f[2]), Cons::parse(f[3])) else {
+    let (Some(src), Some((chain, iter_at)), Some(cons)) = (parse_src(f[1]), parse_chain(f[2]), Cons::parse(f[3])) else {
         return "bad-op".into();
     };
     let stepwise = f[4] == "s";
@@ -1443,7 +1517,7 @@ pub fn exec(line: &str) -> String {
             doc = unhex_bytes(v);
         }
     }
-    let cx = Cx { cons: cons.clone(), stepwise };
+    let cx = Cx { cons: cons.clone(), stepwise, total: chain.len(), iter_at };
     let obs = match &src {
         Src::Iter(quads, v) => {
             if *quads {
@@ -1470,6 +1544,29 @@ pub fn exec(line: &str) -> String {
         Src::Doc(_) => {
             let (Some(fmt), Some(doc)) = (fmt, doc) else { return "bad-op".into() };
             run_doc(fmt, doc, &chain, &cx)
+        }
+        Src::Chunk(false, sc) => {
+            let steps = sc
+                .iter()
+                .map(|(is, e)| (is.iter().map(|i| t3(i.val())).collect::<Vec<T3>>(), e.clone()))
+                .collect();
+            start_t(Chunked::<T3> { steps }, &chain, &cx)
+        }
+        Src::Chunk(true, sc) => {
+            let steps = sc
+                .iter()
+                .map(|(is, e)| {
+                    let v: Vec<Q4> = is
+                        .iter()
+                        .map(|i| match i {
+                            It::Q(n, g) => q4(*n, *g),
+                            It::T(n) => q4(*n, 0),
+                        })
+                        .collect();
+                    (v, e.clone())
+                })
+                .collect();
+            start_q(Chunked::<Q4> { steps }, &chain, &cx)
         }
     };
     if obs.notes.iter().any(|n| n.starts_with("bad-") || n.starts_with("small-")) {
@@ -1548,6 +1645,28 @@ fn gen_chain(rng: &mut Rng, depth: usize, mut quads: bool) -> (Vec<Adapter>, boo
     (c, quads)
 }
 
+/// some map / filter_map position of the chain (if any), to be followed by `.into_iter()`
+fn pick_iter_at(rng: &mut Rng, chain: &[Adapter]) -> Option<usize> {
+    let pos: Vec<usize> = chain
+        .iter()
+        .enumerate()
+        .filter(|(_, a)| matches!(a, Adapter::Map(..) | Adapter::FilterMap(..)))
+        .map(|(i, _)| i)
+        .collect();
+    if pos.is_empty() { None } else { Some(*rng.pick(&pos)) }
+}
+
+/// a chain that contains a map / filter_map adapter somewhere
+fn gen_chain_with_map(rng: &mut Rng, max_depth: usize, quads: bool) -> (Vec<Adapter>, bool, usize) {
+    loop {
+        let d = rng.range(1, max_depth.max(1));
+        let (c, q) = gen_chain(rng, d, quads);
+        if let Some(i) = pick_iter_at(rng, &c) {
+            return (c, q, i);
+        }
+    }
+}
+
 fn gen_items(rng: &mut Rng, len: usize, quads: bool) -> Vec<It> {
     let span = rng.range(3, 12);
     (0..len)
@@ -1568,6 +1687,8 @@ fn gen_pre(rng: &mut Rng, quads: bool) -> Vec<It> {
 
 struct Emit<'a> {
     ctx: &'a mut GenCtx,
+    /// position of the adapter to be followed by `.into_iter()` in the chains emitted next
+    iter_at: Option<usize>,
 }
 
 impl Emit<'_> {
@@ -1575,7 +1696,7 @@ impl Emit<'_> {
         let line = format!(
             "x {} {} {} {}{}",
             render_src(src),
-            render_chain(chain),
+            render_chain(chain, self.iter_at),
             cons.render(),
             if stepwise { "s" } else { "w" },
             extra
@@ -1584,6 +1705,19 @@ impl Emit<'_> {
         self.ctx.stats.bump(&format!("fault.{}", fault));
         self.ctx.stats.bump(&format!("depth.{}", chain.len()));
         self.ctx.stats.bump(if stepwise { "mode.stepwise" } else { "mode.whole" });
+        if let Some(i) = self.iter_at {
+            let k = match chain[i] {
+                Adapter::Map(w, _) => format!("into_iter.map_{}", w.ch()),
+                Adapter::FilterMap(w, ..) => format!("into_iter.filter_map_{}", w.ch()),
+                _ => "into_iter.bad".into(),
+            };
+            self.ctx.stats.bump(&k);
+        }
+        self.ctx.stats.bump(match src {
+            Src::Iter(..) => "source.iterator",
+            Src::Doc(..) => "source.parser",
+            Src::Chunk(..) => "source.chunked",
+        });
         for a in chain {
             let k = match a {
                 Adapter::Filter(w, _) => format!("adapter.filter_{}", w.ch()),
@@ -1644,6 +1778,7 @@ fn gen_iter_sample(e: &mut Emit, len: usize, depth: usize, small_budget: &mut us
     let quads0 = e.ctx.rng.chance(1, 3);
     let items = gen_items(&mut e.ctx.rng, len, quads0);
     let (chain, quads) = gen_chain(&mut e.ctx.rng, depth, quads0);
+    e.iter_at = if e.ctx.rng.chance(1, 3) { pick_iter_at(&mut e.ctx.rng, &chain) } else { None };
     let xs = chain_meaning(&chain, &items);
     let payload = (e.ctx.rng.below(90) + 10).to_string();
     let sink_payload = (e.ctx.rng.below(90) + 100).to_string();
@@ -1815,6 +1950,7 @@ fn gen_broken(rng: &mut Rng, fmt: Fmt) -> String {
 fn gen_doc_sample(e: &mut Emit, fmt: Fmt, nstmt: usize, depth: usize) {
     let stmts: Vec<(String, Vec<It>)> = (0..nstmt).map(|_| gen_statement(&mut e.ctx.rng, fmt)).collect();
     let (chain, quads) = gen_chain(&mut e.ctx.rng, depth, fmt.quads());
+    e.iter_at = if e.ctx.rng.chance(1, 2) { pick_iter_at(&mut e.ctx.rng, &chain) } else { None };
     let sink_payload = (e.ctx.rng.below(90) + 100).to_string();
     // syntax error at statement k, for every k (k = nstmt: no error)
     for k in 0..=nstmt {
@@ -1859,12 +1995,138 @@ fn gen_doc_sample(e: &mut Emit, fmt: Fmt, nstmt: usize, depth: usize) {
     }
 }
 
+/// a script over `items` with chunk sizes 1..=3 (sometimes an empty chunk) and a fault after the
+/// first `k` items: the chunk that contains position `k` emits its items before `k`, then fails
+fn chunk_script(rng: &mut Rng, items: &[It], k: Option<usize>, payload: &str) -> Script {
+    let mut sc: Script = vec![];
+    let mut i = 0usize;
+    loop {
+        if rng.chance(1, 8) {
+            sc.push((vec![], None));
+        }
+        let size = rng.range(1, 3);
+        let end = (i + size).min(items.len());
+        if let Some(k) = k {
+            if k >= i && (k < end || (k == end && (end == items.len() || rng.chance(1, 2)))) {
+                sc.push((items[i..k].to_vec(), Some(payload.to_string())));
+                // what the source would do after its failure (must not matter)
+                if k < items.len() {
+                    sc.push((items[k..].to_vec(), None));
+                }
+                return sc;
+            }
+        }
+        if i >= items.len() {
+            return sc;
+        }
+        sc.push((items[i..end].to_vec(), None));
+        i = end;
+    }
+}
+
+/// (a) synthetic chunked source, `.into_iter()` on a map / filter_map, fault at EVERY item position
+fn gen_chunked_sample(e: &mut Emit, len: usize, max_depth: usize) {
+    let quads0 = e.ctx.rng.chance(1, 3);
+    let items = gen_items(&mut e.ctx.rng, len, quads0);
+    let (chain, quads, at) = gen_chain_with_map(&mut e.ctx.rng, max_depth, quads0);
+    let payload = (e.ctx.rng.below(90) + 10).to_string();
+    let sink_payload = (e.ctx.rng.below(90) + 100).to_string();
+    let xs_all = chain_meaning(&chain, &items);
+    let others = other_consumers(&mut e.ctx.rng, quads, &xs_all);
+    for k in 0..=items.len() {
+        let src = Src::Chunk(quads0, chunk_script(&mut e.ctx.rng, &items, Some(k), &payload));
+        for iter_at in [Some(at), None] {
+            e.iter_at = iter_at;
+            e.case(&src, &chain, &Cons::Try(None, sink_payload.clone()), false, "", "source.midchunk");
+            e.case(&src, &chain, &Cons::Try(None, sink_payload.clone()), true, "", "source.midchunk");
+        }
+        e.iter_at = Some(at);
+        let o = &others[(k + len) % others.len()];
+        e.case(&src, &chain, o, false, "", "source.midchunk");
+    }
+    // no source fault: sink fault on every delivered item, and every other consumer
+    let src = Src::Chunk(quads0, chunk_script(&mut e.ctx.rng, &items, None, &payload));
+    e.iter_at = Some(at);
+    for j in 0..=xs_all.len() {
+        e.case(&src, &chain, &Cons::Try(Some(j), sink_payload.clone()), j % 2 == 1, "", "sink.closure");
+    }
+    for o in &others {
+        e.case(&src, &chain, o, false, "", "none");
+    }
+    let total: usize = xs_all.iter().map(|x| ref_bytes(*x).len()).sum();
+    let l = e.ctx.rng.range(0, total + 3);
+    e.case(&src, &chain, &Cons::Ser(l, sink_payload.clone()), false, "", "sink.writer");
+    e.iter_at = None;
+}
+
+/// (b) the real Turtle parser, one statement with object lists / predicate lists, a syntax error
+/// put at EVERY object position (so that the step has already emitted the objects before it)
+fn gen_turtle_list_sample(e: &mut Emit, max_depth: usize) {
+    let npred = e.ctx.rng.range(1, 3);
+    let lists: Vec<Vec<u64>> = (0..npred).map(|_| (0..e.ctx.rng.range(1, 4)).map(|_| e.ctx.rng.below(9) as u64).collect()).collect();
+    let total: usize = lists.iter().map(|l| l.len()).sum();
+    let lead = e.ctx.rng.range(0, 2);
+    let (chain, quads, at) = gen_chain_with_map(&mut e.ctx.rng, max_depth, false);
+    let sink_payload = (e.ctx.rng.below(90) + 100).to_string();
+    for bad in 0..=total {
+        // bad == total: no error
+        let mut doc = String::new();
+        for i in 0..lead {
+            doc += &format!("<x:s> <x:p> {} .\n", i);
+        }
+        let mut pos = 0usize;
+        let mut stmt = String::from("<x:s>");
+        for (pi, l) in lists.iter().enumerate() {
+            stmt += if pi == 0 { " <x:p> " } else { " ;\n    <x:p> " };
+            for (oi, v) in l.iter().enumerate() {
+                if oi > 0 {
+                    stmt += ", ";
+                }
+                if pos == bad {
+                    stmt += "%%%";
+                } else {
+                    stmt += &v.to_string();
+                }
+                pos += 1;
+            }
+        }
+        stmt += " .\n";
+        doc += &stmt;
+        doc += "<x:s> <x:p> 8 .\n";
+        let script = observe_doc(Fmt::Ttl, &doc);
+        let src = Src::Doc(script.clone());
+        let (items, err) = delivered(&src);
+        let xs = chain_meaning(&chain, &items);
+        let extra = format!(" fmt=ttl doc={}", hex(&doc));
+        let fault = if err.is_some() { "source.syntax.in_list" } else { "none" };
+        e.ctx.stats.bump("parser.ttl");
+        if script.iter().any(|(is, er)| er.is_some() && !is.is_empty()) {
+            e.ctx.stats.bump("parser.step_emits_then_fails");
+        }
+        for iter_at in [Some(at), None] {
+            e.iter_at = iter_at;
+            e.case(&src, &chain, &Cons::Try(None, sink_payload.clone()), false, &extra, fault);
+            e.case(&src, &chain, &Cons::Try(None, sink_payload.clone()), true, &extra, fault);
+        }
+        e.iter_at = Some(at);
+        let others = other_consumers(&mut e.ctx.rng, quads, &xs);
+        let o = &others[bad % others.len()];
+        e.case(&src, &chain, o, false, &extra, fault);
+        if bad == total / 2 {
+            for j in 0..=xs.len() {
+                e.case(&src, &chain, &Cons::Try(Some(j), sink_payload.clone()), false, &extra, "sink.closure");
+            }
+        }
+    }
+    e.iter_at = None;
+}
+
 pub fn generate(ctx: &mut GenCtx) {
     if std::env::var("C15_DEBUG").is_ok() {
         std::panic::set_hook(Box::new(|i| eprintln!("{}", i)));
     }
     let thorough = ctx.thorough;
-    let mut e = Emit { ctx };
+    let mut e = Emit { ctx, iter_at: None };
     let max_depth = if thorough { 5 } else { 3 };
     // one 16-bit graph costs ~0.35 s to pre-fill in a dev build
     let mut small_budget = if thorough { 500 } else { 36 };
@@ -1921,8 +2183,25 @@ pub fn generate(ctx: &mut GenCtx) {
         let depth = if i % 3 == 0 { 0 } else { e.ctx.rng.range(1, max_depth) };
         gen_doc_sample(&mut e, fmt, nstmt, depth);
     }
+    let n_chunk = if thorough { 600 } else { 60 };
+    for i in 0..n_chunk {
+        let len = if i % 5 == 0 { e.ctx.rng.range(0, 3) } else { e.ctx.rng.range(2, 12) };
+        gen_chunked_sample(&mut e, len, max_depth);
+    }
+    let n_list = if thorough { 400 } else { 40 };
+    for _ in 0..n_list {
+        gen_turtle_list_sample(&mut e, max_depth);
+    }
 }
 
 fn main() {
+    // `vh-c15 observe <fmt> <hex doc>`: print the source token for a document (helper for writing corpus cases)
+    let args: Vec<String> = std::env::args().collect();
+    if args.get(1).map(|s| s.as_str()) == Some("observe") {
+        let fmt = Fmt::parse(&args[2]).expect("fmt");
+        let doc = unhex(&args[3]).expect("hex");
+        println!("{}", render_src(&Src::Doc(observe_doc(fmt, &doc))));
+        return;
+    }
     vhcore::main_loop(generate, exec);
 }
